@@ -123,6 +123,8 @@ READERS = ["tls_uint8_from_bytes", "tls_uint16_from_bytes", "tls_uint24_from_byt
            "sm2_z256_point_from_octets", "sm2_z256_point_from_bytes", "x509_cert_from_der", "asn1_length_from_der", "asn1_sequence_from_der",
            "asn1_integer_from_der_ex", "asn1_type_from_der", "asn1_any_from_der", "x509_cert_get_subject_public_key", "x509_certs_get_cert_by_index"]
 READER_EXCLUDED_FILES = ("src/tls_trace.c",)
+# (file, function, callee): second pass of a two-pass encoder over the caller's own, already validated, list
+READER_EXCLUDED_SITES = {("src/tls_ext.c", "tls13_certificate_authorities_ext_to_bytes", "asn1_type_from_der")}
 
 def run_reader_scan():
     saved = list(FAIL_CLOSED)
@@ -131,7 +133,8 @@ def run_reader_scan():
         r = run_scan()
     finally:
         FAIL_CLOSED[:] = saved
-    r["findings"] = [f for f in r["findings"] if f["why"] == "result ignored" and f["file"] not in READER_EXCLUDED_FILES]
+    r["findings"] = [f for f in r["findings"] if f["why"] == "result ignored" and f["file"] not in READER_EXCLUDED_FILES
+                     and (f["file"], f["function"], f["callee"]) not in READER_EXCLUDED_SITES]
     r["callees"] = READERS
     return r
 
